@@ -250,10 +250,28 @@ fn rle(bytes: &[u8]) -> String {
 }
 
 fn coq_instr(i: &RawInstr) -> String {
-    format!("(mkI {} {} {} {} {} {} {} {})", z(i.time as i64), i.opcode, i.param_mask, rle(&i.args_blob),
+    format!("(CI {} {} {} {} {} {} {} {})", z(i.time as i64), i.opcode, i.param_mask, rle(&i.args_blob),
             i.difficulty, i.pop, z(i.extra_arg.unwrap_or(0) as i64), i.arg_count)
 }
 fn coq_instrs(l: &[RawInstr]) -> String { format!("[{}]", l.iter().map(coq_instr).collect::<Vec<_>>().join("; ")) }
+
+/// like coq_instrs, but argument blobs that occur verbatim in `region` (the bytes the implementation wrote, where
+/// `hdr`-byte headers precede them) are given as (offset, length) into it; the equality is checked here
+fn coq_instrs_in(l: &[RawInstr], region: &[u8], hdr: usize) -> String {
+    let mut pos = 0usize;
+    let mut out = vec![];
+    for i in l {
+        let a = &i.args_blob;
+        let at = pos + hdr;
+        if a.len() >= 8 && at + a.len() <= region.len() && &region[at..at + a.len()] == &a[..] {
+            out.push(format!("(CS {} {} {} {} {} {} {} {} {})", z(i.time as i64), i.opcode, i.param_mask, at, a.len(), i.difficulty, i.pop, z(i.extra_arg.unwrap_or(0) as i64), i.arg_count));
+        } else {
+            out.push(coq_instr(i));
+        }
+        pos += hdr + a.len();
+    }
+    format!("[{}]", out.join("; "))
+}
 
 fn coq_ires<T>(r: &Result<Result<T, String>, String>, f: impl Fn(&T) -> String) -> String {
     match r {
@@ -362,10 +380,10 @@ fn run_script(t: &Template, instrs: &[RawInstr], focus: Option<&str>, stats: &mu
         _ => { region = vec![]; }
     }
     let wterm = match &w { Ok(Ok(_)) => format!("(IOk {})", rle(&region)), Ok(Err(_)) => "IErr".into(), Err(_) => "IPanic".into() };
-    let rterm = match &r { Ok(Ok(l)) if same_instrs(l, instrs) => "ISame".to_string(), _ => coq_ires(&r, |l| coq_instrs(l)) };
+    let rterm = match &r { Ok(Ok(l)) if same_instrs(l, instrs) => "ISame".to_string(), _ => coq_ires(&r, |l| coq_instrs_in(l, &region, sf.hdr())) };
     if region.len() > 4000 { stats.big += 1; }
     println!("SCRIPT\t(KScript {} {} {} {} {} {})\t{} {:?} {}", sf.coq(), if (t.layout == Layout::Next && matches!(sf, Fmt::AnmV0 | Fmt::AnmV2 | Fmt::Msg)) || sf == Fmt::Ecl10 { "true" } else { "false" },
-             t.off, coq_instrs(instrs), wterm, rterm, sf.name(), t.layout, describe(instrs).chars().take(300).collect::<String>());
+             t.off, coq_instrs_in(instrs, &region, sf.hdr()), wterm, rterm, sf.name(), t.layout, describe(instrs).chars().take(300).collect::<String>());
     stats.bump(&format!("{}:{}", sf.name(), match (&w, &r) { (Ok(Ok(_)), Ok(Ok(_))) => "ok", (Ok(Ok(_)), Ok(Err(_))) => "unreadable", (Ok(Ok(_)), Err(_)) => "readpanic", (Ok(Err(_)), _) => "rejected", (Err(_), _) => "writepanic" }));
     // implementation-level oracle: written without diagnostic => reads back as requested
     if let Ok(Ok(_)) = &w {
@@ -469,7 +487,13 @@ const OPCODES: [u16; 14] = [0, 1, 127, 128, 200, 255, 256, 257, 32767, 32768, 65
 const LENS: [usize; 22] = [0, 4, 8, 12, 240, 244, 248, 252, 256, 260, 32748, 32752, 32756, 32760, 32764, 65516, 65520, 65524, 65528, 65532, 65536, 65540];
 const MASKS: [u16; 8] = [0, 1, 0xff, 0x100, 0x7fff, 0x8000, 0xffff, 0xfe];
 
-fn focus_cases(sf: Fmt, rng: &mut Rng, big: bool) -> Vec<(Vec<RawInstr>, Option<&'static str>)> {
+fn focus_cases(sf: Fmt, rng: &mut Rng, big: bool, quick: bool) -> Vec<(Vec<RawInstr>, Option<&'static str>)> {
+    let all = focus_cases_all(sf, rng, big);
+    // the quick tier takes every other boundary case (alternating with the seed), the thorough tier all of them
+    if quick { let par = (seed_from_env() % 2) as usize; all.into_iter().enumerate().filter(|(k, _)| k % 2 == par).map(|(_, c)| c).collect() } else { all }
+}
+
+fn focus_cases_all(sf: Fmt, rng: &mut Rng, big: bool) -> Vec<(Vec<RawInstr>, Option<&'static str>)> {
     let mut out = vec![];
     let mk = |rng: &mut Rng, f: &dyn Fn(&mut RawInstr)| { let mut b = base_instr(sf, rng); f(&mut b); b };
     let wrap = |rng: &mut Rng, i: RawInstr| -> Vec<RawInstr> {
@@ -529,7 +553,7 @@ fn raw_mode(n: usize, quick: bool, rng: &mut Rng, stats: &mut Stats) {
                 }
                 // quick tier: the boundary cases once per format (first game, first layout); thorough: both layouts
                 if gi == 0 && (!quick || layout == layouts[0]) {
-                    for (l, focus) in focus_cases(sf, rng, layout == layouts[0]) { run_script(&t, &l, focus, stats); }
+                    for (l, focus) in focus_cases(sf, rng, layout == layouts[0], quick) { run_script(&t, &l, focus, stats); }
                 }
                 let k = if gi == 0 { n } else { n / 4 };
                 for _ in 0..k { let l = random_script(sf, rng); run_script(&t, &l, None, stats); }
@@ -879,7 +903,7 @@ fn check_source(fmt: Fmt, game: Game, text: &str, asked: Option<&[(Fmt, Vec<SrcI
                 // keep the case small: only the bytes up to the end of the file
                 if region.len() < 200000 {
                     println!("SCRIPT\t(KScript {} {} {} {} (IOk {}) {})\tsrc {} script {} {}", sf.coq(), if next { "true" } else { "false" }, off,
-                             coq_instrs(&m.instrs), rle(region), if same_instrs(&m.instrs, &b.instrs) { "ISame".to_string() } else { format!("(IOk {})", coq_instrs(&b.instrs)) }, sf.name(), k, describe(&m.instrs).chars().take(200).collect::<String>());
+                             coq_instrs_in(&m.instrs, region, sf.hdr()), rle(region), if same_instrs(&m.instrs, &b.instrs) { "ISame".to_string() } else { format!("(IOk {})", coq_instrs_in(&b.instrs, region, sf.hdr())) }, sf.name(), k, describe(&m.instrs).chars().take(200).collect::<String>());
                 }
             }
             if m.instrs.len() != b.instrs.len() {
